@@ -171,3 +171,37 @@ def set_angles_pad(ctx, dim, given):
     keep = vals[:n]
     expect = list(keep) + [0.0] * (n - len(keep))
     ctx.ensure("zeros-behind", ctx.eq(out, np.array(expect, dtype=object)) if expect else ctx.true())
+
+
+@contract(P, "CovModel.isometrize/inverse-of-anisometrize", params={"dim": [1, 2, 3], "points": [1, 2]},
+          functions=["covmodel/base.py:CovModel.isometrize", "covmodel/base.py:CovModel.anisometrize"], timeout=60)
+def model_iso_inverse(ctx, dim, points):
+    import warnings
+    import gstools as gs
+    v, l = ctx.real("var", pos=True), ctx.real("len", pos=True)
+    ctx.require(ctx.And(ctx.gt(v, 0), ctx.gt(l, 0)))
+    anis = ctx.reals("r", dim - 1, pos=True)
+    for r in anis:
+        ctx.require(ctx.gt(r, 0))
+    ang = ctx.reals("a", dim * (dim - 1) // 2, angle=True)
+    with warnings.catch_warnings():
+        warnings.simplefilter("ignore")
+        mod = gs.Gaussian(dim=dim, var=v, len_scale=l, anis=anis, angles=ang)
+    pos = np.array([[ctx.real("x%d_%d" % (d, i)) for i in range(points)] for d in range(dim)], dtype=object)
+    if ctx.mode == "conc":
+        pos = pos.astype(float)
+    iso = mod.isometrize(pos)
+    ctx.ensure("shape", ctx.shape_eq(iso, (dim, points)))
+    ctx.ensure("anisometrize(isometrize(x))=x", ctx.eq(mod.anisometrize(iso), pos))
+    ctx.ensure("isometrize(anisometrize(x))=x", ctx.eq(mod.isometrize(mod.anisometrize(pos)), pos))
+    # documented meaning: rotate back (R^T), then divide transversal axes by the ratios
+    R = geo.matrix_rotate(dim, ang)
+    y = R.T @ pos
+    for d in range(1, dim):
+        y[d] = y[d] / anis[d - 1]
+    ctx.ensure("isometrize=S^-1.R^T.x", ctx.eq(iso, y))
+    A = mod.main_axes()
+    for i in range(dim):
+        e = np.zeros(dim)
+        e[i] = 1.0
+        ctx.ensure("main_axes[%d]=R.e%d" % (i, i), ctx.eq(A[i], R @ e))
